@@ -74,6 +74,7 @@ def _case(draw):
     d = gen.D(draw)
     form = d.pick(["backslash", "refs", "refs"])
     n = d.i(1, 12) if d.chance(0.9) else d.i(20, 70)
+    long_t = d.chance(0.004)  # texts beyond 999 characters (length limits that apply to labels must not apply to text)
     chars = []
     for _ in range(n):
         k = d.i(0, 99)
@@ -103,7 +104,10 @@ def _case(draw):
         t = t.strip()
     if not t:
         t = d.pick(ASCII_PUNCT)
-    spell = [d.i(0, 6) for _ in range(len(t))]
+    if long_t:
+        t = (t + " ") * (d.pick([500, 999, 1000, 1001, 1100, 2000]) // (len(t) + 1) + 1)
+        t = t.strip()
+    spell = [d.i(0, 6) for _ in range(min(len(t), 80))]
     edge = [d.pick(["", "", " ", "\t", "  ", " "]), d.pick(["", "", " ", "\t", " "])]
     return {"t": t, "form": form, "spell": spell, "edge": edge}
 
